@@ -1,6 +1,6 @@
 (* C16 - the geometry cache key depends on the geometry and on nothing else: the byte stream fed to the hash. *)
 From Coq Require Import ZArith List Bool.
-From EV Require Import Model.CacheKey Proofs.CacheKeyP.
+From EV Require Import Model.CacheKey Proofs.CacheKeyP Model.Memo Proofs.MemoP.
 Import ListNotations.
 Open Scope Z_scope.
 
@@ -43,3 +43,21 @@ Theorem C16_convention_changes_stream : forall itemsize vars m c e m' c' e',
   (m, c, e) <> (m', c', e') -> stream vars m c e <> stream vars m' c' e'.
 Proof. exact convention_changes_stream. Qed.
 Print Assumptions C16_convention_changes_stream.
+
+(* ---- what the key is for: results remembered under it (model Memo: a cache asked along any session of requests) ---- *)
+
+(* a result that depends on the geometry only, remembered under a key that separates different geometries, is answered in
+   every session - whatever was asked before, in whatever order - as if it were computed afresh *)
+Theorem C16_remembered_results_sound : forall (X K V : Type) (key : X -> K) (f : X -> V) (keq : K -> K -> bool),
+  (forall a b : K, keq a b = true <-> a = b) -> (forall x y, key x = key y -> f x = f y) ->
+  forall xs : list X, snd (run X K V key f keq nil xs) = List.map f xs.
+Proof. exact session_sound. Qed.
+Print Assumptions C16_remembered_results_sound.
+
+(* a key that is too coarse - two datasets, one key, different results - gives the second dataset the answer of the first *)
+Theorem C16_coarse_key_refuted : forall (X K V : Type) (key : X -> K) (f : X -> V) (keq : K -> K -> bool),
+  (forall a b : K, keq a b = true <-> a = b) ->
+  forall x y : X, key x = key y -> f x <> f y ->
+  snd (run X K V key f keq nil (x :: y :: nil)) <> List.map f (x :: y :: nil).
+Proof. exact coarse_key_refuted. Qed.
+Print Assumptions C16_coarse_key_refuted.
